@@ -32,10 +32,31 @@ type sweep struct {
 	depth  int
 	visit  func(def *ph.Def, argv []string) // called for every node of the enumeration tree
 	filter func(argv []string) bool         // optional: prune (node and subtree) when false
+	ext    []string                         // further tokens that appear only in argv shorter than depth
 }
 
 func (s *sweep) run() {
 	res := s.c.Res
+	if len(s.ext) > 0 {
+		isExt := map[string]bool{}
+		for _, t := range s.ext {
+			isExt[t] = true
+		}
+		s.alpha = append(append([]string{}, s.alpha...), s.ext...)
+		s.ext = nil
+		inner := s.filter
+		depth := s.depth
+		s.filter = func(argv []string) bool {
+			if len(argv) >= depth {
+				for _, t := range argv {
+					if isExt[t] {
+						return false
+					}
+				}
+			}
+			return inner == nil || inner(argv)
+		}
+	}
 	nA := len(s.alpha)
 	units := len(s.defs) * nA
 	for {
